@@ -1,11 +1,24 @@
 package worlds
 
-import "verifsim/sim"
+import (
+	"testing"
+
+	"verifsim/sim"
+)
+
+// warmUpS: one short honest history on a shim, outside any bubble (sim.Spec.WarmUp): what the code under test
+// initialises lazily for the whole process comes into being outside the bubbles of the plans.
+func warmUpS(t *testing.T) {
+	p := &SPlan{Keys: []SKey{{Role: "K0", Kind: "ed25519"}}, Init: []string{"K0"},
+		Steps: []SStep{{Op: "list"}, {Op: "signers"}, {Op: "sign", Role: "K0"}, {Op: "forward", N: 200, Arg: ""}}}
+	var sig []string
+	runHistory(p, false, &sim.Outcome{}, &sig)
+}
 
 // Specs of the sequential shim world.
 var Specs = []*sim.Spec{
-	{Property: "C07", World: "S", Generate: genS("C07"), Execute: execS, Shrink: shrinkS},
-	{Property: "C08", World: "S", Generate: genS("C08"), Execute: execS, Shrink: shrinkS},
-	{Property: "C09", World: "S", Generate: genS("C09"), Execute: execS, Shrink: shrinkS},
-	{Property: "C10", World: "S", Generate: genS("C10"), Execute: execS, Shrink: shrinkS},
+	{Property: "C07", World: "S", WarmUp: warmUpS, Generate: genS("C07"), Execute: execS, Shrink: shrinkS},
+	{Property: "C08", World: "S", WarmUp: warmUpS, Generate: genS("C08"), Execute: execS, Shrink: shrinkS},
+	{Property: "C09", World: "S", WarmUp: warmUpS, Generate: genS("C09"), Execute: execS, Shrink: shrinkS},
+	{Property: "C10", World: "S", WarmUp: warmUpS, Generate: genS("C10"), Execute: execS, Shrink: shrinkS},
 }
